@@ -310,6 +310,7 @@ structure Core (t : TcpSock) (bag : List Pkt) (acks : List Nat) : Prop where
   fresh : ∀ k, (k ∈ ids bag ∨ k ∈ acks ∨ k ∈ ids t.resend) → k < t.nextOut
   cb : ∀ p, (p ∈ bag ∨ p ∈ t.resend) → p.hasDrop = true ∧ p.dropFwd = t.fwd
   segLen : ∀ p, (p ∈ bag ∨ p ∈ t.resend) → 0 < t.mss → p.payload.length ≤ t.mss
+  sized : ∀ p, p ∈ bag → (p.id, p.payload.length) ∈ t.outstanding
 
 theorem mem_ids {l : List Pkt} {k : Nat} : k ∈ ids l ↔ ∃ p ∈ l, p.id = k := by simp [ids]
 
@@ -339,6 +340,7 @@ theorem Core.congr {t t' : TcpSock} {bag : List Pkt} {acks : List Nat} (h : Core
   · rw [h5, h6]; exact h.fresh
   · rw [h5, h7]; exact h.cb
   · rw [h5, h1]; exact h.segLen
+  · rw [h4]; exact h.sized
 
 theorem Core.send {t : TcpSock} {bag : List Pkt} {acks : List Nat} (h : Core t bag acks)
     (t1 : TcpSock) (p : Pkt) (b : Nat)
@@ -397,6 +399,11 @@ theorem Core.send {t : TcpSock} {bag : List Pkt} {acks : List Nat} (h : Core t b
       · exact h.segLen q (Or.inl hq)
       · simp at hq; subst hq; exact hlen
     · exact h.segLen q (Or.inr (hres q hq))
+  · intro q hq; show _ ∈ List.filter _ t1.outstanding ++ _
+    rw [e4, hf, List.mem_append]
+    rw [List.mem_append] at hq; rcases hq with hq | hq
+    · exact Or.inl (h.sized q hq)
+    · simp at hq; subst hq; exact Or.inr (by simp)
 
 
 theorem nodup_filter {l : List Nat} (h : l.Nodup) (f : Nat → Bool) : (l.filter f).Nodup :=
@@ -426,6 +433,10 @@ theorem Core.ack {t : TcpSock} {bag : List Pkt} {acks : List Nat} (h : Core t ba
     · exact Or.inr (Or.inr hj)
   · exact h.cb
   · exact h.segLen
+  · intro q hq; show _ ∈ List.filter _ _
+    rw [List.mem_filter]; refine ⟨h.sized q hq, ?_⟩
+    have : q.id ≠ k := fun hh => hkb (mem_ids.mpr ⟨q, hq, hh⟩)
+    simpa using this
 
 theorem Core.deliver {t : TcpSock} {bag : List Pkt} {acks : List Nat} (h : Core t bag acks) (k : Nat)
     (hk : k ∈ ids bag) :
@@ -460,6 +471,7 @@ theorem Core.deliver {t : TcpSock} {bag : List Pkt} {acks : List Nat} (h : Core 
   · intro q hq; apply h.segLen q; rcases hq with hq | hq
     · exact Or.inl (hsub q hq)
     · exact Or.inr hq
+  · intro q hq; exact h.sized q (hsub q hq)
 
 theorem Core.drop {t : TcpSock} {bag : List Pkt} {acks : List Nat} (h : Core t bag acks)
     (hops : List String) (p : Pkt) (hp : p ∈ bag) :
@@ -511,6 +523,9 @@ theorem Core.drop {t : TcpSock} {bag : List Pkt} {acks : List Nat} (h : Core t b
         rw [List.mem_append] at hq; rcases hq with hq | hq
         · exact h.segLen q (Or.inr hq)
         · simp at hq; subst hq; exact h.segLen p (Or.inl hp)
+    · intro q hq; show _ ∈ List.filter _ _
+      have hq' := List.mem_filter.mp hq
+      rw [List.mem_filter]; exact ⟨h.sized q hq'.1, by simpa using hq'.2⟩
   unfold dropSock
   simp only
   cases dropCond t p
@@ -1332,14 +1347,13 @@ theorem accCheckQueue_accepts (n : NetSt) (now : Int) (a : String) (s : TcpSock)
     simp only [peerOf] at hne hpeer
     unfold NetSt.accCheckQueue
     simp only [hs, hacc, hno, Bool.false_eq_true, if_false, hop, hconns]
-    set_option linter.unusedSimpArgs false in
     have hp1 : (n.setTcp a { s with acc := some { ac with conns := rest, acceptOp := none } }).tcp? nn = some p0 := by
       rw [tcp_setTcp_other _ _ _ _ hne]; exact hpeer
     obtain ⟨d1, ⟨ch2, d2, d3⟩, d4⟩ := tcpAttach_spec (n.setTcp a { s with acc := some { ac with conns := rest, acceptOp := none } }) now nn s.bound c p0 ch hp1 hpc (by rw [chan_setTcp]; exact hch)
     generalize NetSt.tcpAttach _ now nn s.bound c = r at d1 d2 d3 d4
     obtain ⟨n2, e1⟩ := r
     simp only at d1 d2 d3 d4 ⊢
-    simp only [d2, chan_setTcp, hch, Option.map_some, Option.getD_some]
+    simp only [d2]
     refine ⟨?_, ?_, ?_⟩
     · rw [forwards_append, forwards_append, d1]
       simp [forwards, synAckFor, d3]
